@@ -66,19 +66,28 @@ def parse_results(paths):
     return res
 
 def main():
-    results = parse_results(sys.argv[1:])
+    # usage: collect_seeded.py [--prefix /tmp/m2- --round 2] <result logs...>
+    args = sys.argv[1:]
+    prefix, rnd = "/tmp/mut-", ""
+    while args and args[0].startswith("--"):
+        if args[0] == "--prefix":
+            prefix = args[1]
+        if args[0] == "--round":
+            rnd = args[1]
+        args = args[2:]
+    results = parse_results(args)
     out_root = "/verif/seeded"
     os.makedirs(out_root, exist_ok=True)
     summary = []
-    for d in sorted(glob.glob("/tmp/mut-C*/MUTATION")):
-        prop = d.split("/")[2].replace("mut-", "")
+    for d in sorted(glob.glob(prefix + "C*/MUTATION")):
+        prop = d.split("/")[2].split("-")[-1]
         for v in "AB":
             patch = f"{d}/patch{v}.diff"; demo = f"{d}/demo_{prop}_{v}.rs"; ver = f"{d}/verify_{v}.json"
             if not (os.path.exists(patch) and os.path.exists(demo) and os.path.exists(ver)):
                 continue
             verify = json.load(open(ver))
             ok = all(verify[k] for k in ("applies", "builds_features", "suite_passes_with_change", "demo_fails_with_change", "demo_passes_without_change"))
-            sid = f"{prop}-{v}"
+            sid = f"{prop}-{rnd}{v}"
             if not ok:
                 summary.append((sid, "NOT KEPT (claims not confirmed)", verify)); continue
             dst = f"{out_root}/{sid}"
@@ -87,14 +96,17 @@ def main():
             shutil.copy(demo, f"{dst}/demo.rs")
             if os.path.exists(f"{d}/notes.md"):
                 shutil.copy(f"{d}/notes.md", f"{dst}/notes.md")
-            checks = results.get(sid, [])
+            checks = results.get(f"{prop}-{v}", [])
+            needs_file = f"{d}/needs_{v}.txt"
+            if os.path.exists(needs_file):
+                NEEDS[sid] = open(needs_file).read().strip()
             meta = {
                 "id": sid,
                 "breaks_property": prop,
                 "needs_to_manifest": NEEDS.get(sid, "see notes.md"),
                 "origin": "independent sub-agent given only the property record and a scratch worktree of /repo (nothing from /verif)",
                 "confirmed_in_scratch_worktree": {
-                    "command": f"tools/verify_seed.sh {prop} {v}",
+                    "command": f"tools/verify_seed.sh {prop} {v} {prefix}",
                     "patch_applies_to_HEAD": verify["applies"],
                     "builds_with_features_log_and_verif-hooks": verify["builds_features"],
                     "baseline_suite_with_change": verify["suite_summary"],
